@@ -262,8 +262,10 @@ theorem reader_returns_frozen (c : Cfg) (d : Array UInt8) (pos : Nat) (t : TM) (
   split at h; · simp at h
   obtain ⟨_, _, _, h⟩ := P.bind_eq_ok.mp h
   obtain ⟨_, _, _, h⟩ := P.bind_eq_ok.mp h
+  split at h; · simp at h
   obtain ⟨_, _, _, h⟩ := P.bind_eq_ok.mp h
   obtain ⟨_, _, _, h⟩ := P.bind_eq_ok.mp h
+  split at h; · simp at h
   obtain ⟨_, _, _, h⟩ := P.bind_eq_ok.mp h
   obtain ⟨_, _, _, h⟩ := P.bind_eq_ok.mp h
   obtain ⟨cols, _, _, h⟩ := P.bind_eq_ok.mp h
